@@ -217,6 +217,19 @@ def check_mesh(ctx, V, F, surf, what, sig, expect_spacing=None, sample=None, tri
         if not ok:
             ctx.fail("vertex_off_surface", "%s: vertex %d at uv=%r is at %r but the surface evaluates to %r there" % (what, vid, uv, list(data), list(p)),
                      check="on_surface", **sig)
+    # ... and, for a few vertices, against the reference model (the library's own evaluation could share a process-wide memo with
+    # the code that produced the mesh)
+    try:
+        ref_model = shapes.model_of(surf)
+    except Exception:
+        ref_model = None
+    if ref_model is not None and V:
+        for vid, uv, data in [V[0], V[len(V) // 3], V[(2 * len(V)) // 3], V[-1]]:
+            q = ref_model.eval_float([min(1.0, max(0.0, uv[0])), min(1.0, max(0.0, uv[1]))])
+            ok, why = close(list(data), q, 1e-8)
+            if not ok:
+                ctx.fail("vertex_off_surface", "%s: vertex %d at uv=%r is at %r but the surface its definition describes is at %r there (reference model)" % (
+                    what, vid, uv, list(data), q), check="on_surface_model", **sig)
     us = sorted({round(uv[0], 10) for _, uv, _ in V})
     vs = sorted({round(uv[1], 10) for _, uv, _ in V})
     uvs = {vid: uv for vid, uv, _ in V}
